@@ -675,7 +675,7 @@ fn pairs() -> BoxedStrategy<Vec<(String, String)>> {
 fn det_of(kind: usize) -> BoxedStrategy<Det> {
     match kind {
         0 => delay().prop_map(Det::Retry).boxed(),
-        1 => (proptest::collection::vec(st(), 0..=4), st()).prop_map(|(e, d)| Det::Debug(e, d)).boxed(),
+        1 => (proptest::collection::vec(st(), 0..=4), prop_oneof![9 => st(), 1 => (6_000usize..20_000).prop_map(|n| "stack frame #0 at module::function (file.rs:123)\n".chars().cycle().take(n).collect::<String>()).boxed()]).prop_map(|(e, d)| Det::Debug(e, d)).boxed(),
         2 => pairs().prop_map(Det::Quota).boxed(),
         3 => (st(), st(), proptest::collection::btree_map(st(), st(), 0..=4)).prop_map(|(r, d, m)| Det::Info(r, d, m)).boxed(),
         4 => proptest::collection::vec((st(), st(), st()), 0..=4).prop_map(Det::Prec).boxed(),
@@ -921,7 +921,10 @@ fn label_dets(dets: &[Det], o: &mut Outcome) {
                 o.label_if(v.is_empty(), "empty_repeated");
                 o.label_if(v.len() >= 2, "repeated_ge2");
             }
-            Det::Debug(e, _) => o.label_if(e.len() >= 2, "repeated_ge2"),
+            Det::Debug(e, d) => {
+                o.label_if(e.len() >= 2, "repeated_ge2");
+                o.label_if(d.len() >= 6_000, "details_over_8KiB_on_the_wire");
+            }
             Det::Info(_, _, m) => {
                 o.label_if(!m.is_empty(), "info_map_nonempty");
                 o.label_if(m.len() >= 2, "info_map_ge2");
